@@ -5,6 +5,7 @@ import (
 	"io"
 	"math/rand"
 	"os"
+	"sync"
 
 	"github.com/biogo/biogo/align/pals/filter"
 	"github.com/biogo/biogo/alphabet"
@@ -29,71 +30,168 @@ type c14Params struct {
 	MorassChunk int `json:"morass_chunk,omitempty"`
 	// the caller reuses its Params value for something else once the filter has been made
 	ReuseParams bool `json:"params_value_reused_after_new,omitempty"`
+	// self comparison of the other strand, as pals.Align(true) does it: the query is the reverse complement of the
+	// target (a sequence value of its own) and both the self and the complement flag are set
+	SelfComplement bool `json:"self_comparison_with_the_reverse_complement,omitempty"`
+	// linear.Seq.Offset of the target and of the query (the letters are the same; all positions below are letter indices)
+	TargetOffset int `json:"target_seq_offset,omitempty"`
+	QueryOffset  int `json:"query_seq_offset,omitempty"`
+	// the target sequence is also the query but the self flag is NOT set: every match is demanded, the main diagonal included
+	QueryIsTarget string `json:"query_is_the_target_without_self_flag,omitempty"`
+	// every use of the one Filter value gets a new sorter (the earlier ones are still alive)
+	FreshSorters bool `json:"new_sorter_for_every_use,omitempty"`
+	// number of other Filters made from the same index that run at the same time on other goroutines
+	Concurrent int `json:"other_filters_running_on_the_index,omitempty"`
 }
+
+const (
+	c14SameValue = "the same *linear.Seq"
+	c14Clone     = "a clone of it"
+)
 
 type c14Match struct{ T0, Q0, Mism int }
 
-// c14Filter runs the filter. If prior is non-nil the same Filter value is first run on prior (its hits are
-// discarded), the way pals.Align reuses one filter for the forward and the complement-strand search.
-func c14Filter(target, query []byte, p c14Params, dir string, prior []byte) ([]filter.Hit, error) {
-	ts := linear.NewSeq("t", alphabet.BytesToLetters(append([]byte(nil), target...)), alphabet.DNA)
+// c14Filter runs the filter. The Filter value is first run on every query of priors (those hits are discarded),
+// the way pals.Align reuses one filter for the forward and the complement-strand search; with p.FreshSorters every
+// use gets a sorter of its own. With p.Concurrent > 0 that many further Filters made from the same index are run
+// at the same time on goroutines of their own (the first of them on a copy of the query: its hits come back in
+// side; the others on scrambled queries).
+func c14Filter(target, query []byte, p c14Params, dir string, priors [][]byte, sideQueries [][]byte) (hits, side []filter.Hit, err error) {
+	mkSeq := func(id string, b []byte, off int) *linear.Seq {
+		s := linear.NewSeq(id, alphabet.BytesToLetters(append([]byte(nil), b...)), alphabet.DNA)
+		s.Offset = off
+		return s
+	}
+	ts := mkSeq("t", target, p.TargetOffset)
 	qs := ts
-	if !p.Self {
-		qs = linear.NewSeq("q", alphabet.BytesToLetters(append([]byte(nil), query...)), alphabet.DNA)
+	switch {
+	case p.QueryIsTarget == c14SameValue:
+	case p.QueryIsTarget == c14Clone:
+		qs = ts.Clone().(*linear.Seq)
+	case !p.Self || p.SelfComplement:
+		qs = mkSeq("q", query, p.QueryOffset)
 	}
 	ki, err := kmerindex.New(p.K, ts)
 	if err != nil {
-		return nil, fmt.Errorf("kmerindex.New: %v", err)
+		return nil, nil, fmt.Errorf("kmerindex.New: %v", err)
 	}
 	ki.Build()
 	chunk := 1 << 16
 	if p.MorassChunk > 0 {
 		chunk = p.MorassChunk
 	}
-	m, err := morass.New(filter.Hit{}, "c14", dir, chunk, false)
-	if err != nil {
-		return nil, fmt.Errorf("morass.New: %v", err)
+	var sorters []*morass.Morass
+	defer func() {
+		for _, m := range sorters {
+			m.CleanUp()
+		}
+	}()
+	newSorter := func(chunk int) (*morass.Morass, error) {
+		m, err := morass.New(filter.Hit{}, "c14", dir, chunk, false)
+		if err != nil {
+			return nil, fmt.Errorf("morass.New: %v", err)
+		}
+		sorters = append(sorters, m)
+		return m, nil
 	}
-	defer m.CleanUp()
+	drain := func(m *morass.Morass) ([]filter.Hit, error) {
+		var hits []filter.Hit
+		for {
+			var h filter.Hit
+			err := m.Pull(&h)
+			if err == io.EOF {
+				return hits, nil
+			}
+			if err != nil {
+				return hits, fmt.Errorf("Pull: %v", err)
+			}
+			hits = append(hits, h)
+		}
+	}
+	// only the sorter of the judged use is the small-chunk one when every use has its own
+	first := chunk
+	if p.FreshSorters && len(priors) > 0 {
+		first = 1 << 16
+	}
+	m, err := newSorter(first)
+	if err != nil {
+		return nil, nil, err
+	}
 	prm := &filter.Params{WordSize: p.K, MinMatch: p.N, MaxError: p.E, TubeOffset: p.Offset}
 	f := filter.New(ki, prm)
+	// the filters that will run next to the judged one: made from the same index and the same Params value
+	type sideRun struct {
+		f   *filter.Filter
+		q   *linear.Seq
+		m   *morass.Morass
+		err error
+	}
+	var sides []*sideRun
+	for i := 0; i < p.Concurrent; i++ {
+		sm, err := newSorter(1 << 16)
+		if err != nil {
+			return nil, nil, err
+		}
+		sides = append(sides, &sideRun{f: filter.New(ki, prm), q: mkSeq(fmt.Sprint("side", i), sideQueries[i], p.QueryOffset), m: sm})
+	}
 	if p.ReuseParams {
 		*prm = filter.Params{WordSize: 31, MinMatch: 40 * p.N, MaxError: 0, TubeOffset: 1}
 	}
-	if prior != nil {
-		ps := linear.NewSeq("prior", alphabet.BytesToLetters(append([]byte(nil), prior...)), alphabet.DNA)
-		if p.Self { // the same self comparison run twice on one Filter: the second answer is the one that is judged
-			ps = ts
+	for i, prior := range priors {
+		ps := mkSeq("prior", prior, p.QueryOffset)
+		if p.Self { // the same self comparison run again on one Filter: the last answer is the one that is judged
+			ps = qs
 		}
 		if err := f.Filter(ps, p.Self, p.Complement, m); err != nil {
-			return nil, fmt.Errorf("Filter (first use): %v", err)
+			return nil, nil, fmt.Errorf("Filter (use %d): %v", i+1, err)
 		}
-		for {
-			var h filter.Hit
-			if err := m.Pull(&h); err != nil {
-				break
+		drain(m)            // the hits of the earlier uses are discarded
+		if p.FreshSorters { // the earlier sorter stays with its owner; the next use gets a new one
+			next := 1 << 16
+			if i == len(priors)-1 {
+				next = chunk
 			}
+			if m, err = newSorter(next); err != nil {
+				return nil, nil, err
+			}
+			continue
 		}
 		if err := m.Clear(); err != nil {
-			return nil, fmt.Errorf("Clear between uses: %v", err)
+			return nil, nil, fmt.Errorf("Clear between uses: %v", err)
 		}
 	}
-	if err := f.Filter(qs, p.Self, p.Complement, m); err != nil {
-		return nil, fmt.Errorf("Filter: %v", err)
+	var wg sync.WaitGroup
+	for _, sr := range sides {
+		wg.Add(1)
+		go func(sr *sideRun) {
+			defer wg.Done()
+			defer func() {
+				if e := recover(); e != nil {
+					sr.err = fmt.Errorf("panic: %v", e)
+				}
+			}()
+			sr.err = sr.f.Filter(sr.q, p.Self, p.Complement, sr.m)
+		}(sr)
 	}
-	var hits []filter.Hit
-	for {
-		var h filter.Hit
-		err := m.Pull(&h)
-		if err == io.EOF {
-			break
-		}
-		if err != nil {
-			return hits, fmt.Errorf("Pull: %v", err)
-		}
-		hits = append(hits, h)
+	func() {
+		defer wg.Wait()
+		err = f.Filter(qs, p.Self, p.Complement, m)
+	}()
+	if err != nil {
+		return nil, nil, fmt.Errorf("Filter: %v", err)
 	}
-	return hits, nil
+	for i, sr := range sides {
+		if sr.err != nil {
+			return nil, nil, fmt.Errorf("Filter (filter %d of %d running at the same time on the index): %v", i+2, len(sides)+1, sr.err)
+		}
+	}
+	if len(sides) > 0 {
+		if side, err = drain(sides[0].m); err != nil {
+			return nil, nil, err
+		}
+	}
+	hits, err = drain(m)
+	return hits, side, err
 }
 
 // c14Matches enumerates every pair of length-n windows differing by at most e substitutions (diagonal-wise sliding count).
@@ -134,11 +232,14 @@ func c14Matches(t, q []byte, n, e int, self bool) []c14Match {
 	return out
 }
 
-func c14Covered(m c14Match, hits []filter.Hit, p c14Params) bool {
-	d := m.Q0 - m.T0
+// c14Covered: dT and dQ are added to the letter indices of the match before it is compared with the hits (0, 0:
+// hits speak of letter indices; the sequences' offsets: hits speak of sequence coordinates).
+func c14Covered(m c14Match, hits []filter.Hit, p c14Params, dT, dQ int) bool {
+	q0 := m.Q0 + dQ
+	d := q0 - (m.T0 + dT)
 	for _, h := range hits {
 		lo := -h.Diagonal
-		if d >= lo && d <= lo+p.Offset+p.E-1 && h.From < m.Q0+p.N && h.To > m.Q0 {
+		if d >= lo && d <= lo+p.Offset+p.E-1 && h.From < q0+p.N && h.To > q0 {
 			return true
 		}
 	}
@@ -174,7 +275,10 @@ func init() {
 		Level: "exploration",
 		Rule: "one target/query pair per case over ACGT (length 100..1500, thorough ..5000) with parameters k 4..8, e 0..3, n such that n+1-k(e+1)>=1, tube offset max(e,1)..e+40, non-self and self comparison; windows of the target are planted into the query with <=e substitutions so that the case index sweeps every diagonal residue mod offset " +
 			"and every query residue relative to the tube-recycling tick, at the start, middle and end of the target and query; all epsilon-matches are enumerated independently by a diagonal-wise sliding Hamming count and each must be covered by a hit (diagonal band contains the match diagonal, query interval overlaps). " +
-			"Hits are read back from an in-memory sorter. Non-trivial = >=1 epsilon-match enumerated; distinct = parameters + planted residues + sequence hash",
+			"Hits are read back from the caller's sorter. Added dimensions: (a) a third of the self comparisons are made with the reverse complement of the target and both the self and the complement flag (pals.Align(true)), hairpins with arms 0..2 letters apart planted; demanded are the matches with T0+Q0 >= Tlen (an inverted repeat with arms that do not overlap, seen from the right arm), covered themselves or through their mirror image; " +
+			"(b) non-zero linear.Seq offsets (1 .. 2^33, negative too) on target and query in a quarter of the pairs, matches kept in letter indices; (c) 3..5 further Filters made from the same index running at the same time on other goroutines (one of them on the same query and judged as well); (d) the target value, or a clone of it, as the query WITHOUT the self flag: all matches demanded, main diagonal included; " +
+			"(e) one Filter used up to four times with queries several times longer and shorter than the judged one, each use with a new sorter; (f) a family with k 9..11 (thorough ..12), e 4..24, n 100..400, offset e+32, and repeats of 270..1000 letters (also for k 4..8 and in self comparisons of either strand). " +
+			"Non-trivial = >=1 epsilon-match enumerated; distinct = parameters + planted residues + sequence hash",
 		Batches: func(t string) int {
 			if t == "thorough" {
 				return 16
@@ -185,9 +289,14 @@ func init() {
 		Case:        c14Case,
 		MinDistinct: func(t string) int { return 300 },
 		Floors: func(string) map[string]int64 {
-			return map[string]int64{"pairs": 800, "epsilon_matches_checked": 12000, "matches_at_target_end": 300, "matches_at_query_end": 300, "matches_with_errors": 3000, "self_comparison_pairs": 100, "diagonal_residues_covered": 20, "hits_reported": 1000, "ring_stress_pairs": 150, "filter_reused_for_second_query": 150}
+			return map[string]int64{"pairs": 800, "epsilon_matches_checked": 12000, "matches_at_target_end": 300, "matches_at_query_end": 300, "matches_with_errors": 3000, "self_comparison_pairs": 100, "diagonal_residues_covered": 20, "hits_reported": 1000, "ring_stress_pairs": 150, "filter_reused_for_second_query": 150,
+				"self_comparisons_with_the_reverse_complement": 100, "matches_checked_on_the_other_strand_of_a_self_comparison": 3000, "hairpin_matches_with_arms_0_to_2_letters_apart": 200,
+				"pairs_of_sequences_with_offsets": 300, "pairs_with_the_target_as_query_and_no_self_flag": 100, "filters_used_for_a_fourth_query_after_a_long_and_a_short_one": 150,
+				"pairs_filtered_while_3_to_5_other_filters_ran_on_the_index": 100, "pairs_with_word_size_9_or_more_and_4_to_24_errors": 80, "repeats_of_270_to_1000_letters_planted": 150}
 		},
-		Assumptions: []string{"sequences contain only A,C,G,T (the tube-recycling tick counts visited k-mer positions)", "epsilon-match = two length-n windows differing by at most e substitutions (no indels)", "complement-strand filtering is not exercised", "a Filter value may be reused for a second query after the sorter has been cleared (as pals.Align does)"},
+		Assumptions: []string{"sequences contain only A,C,G,T (the tube-recycling tick counts visited k-mer positions)", "epsilon-match = two length-n windows differing by at most e substitutions (no indels)", "in a self comparison with the reverse complement strand the statement's 'strictly above the main diagonal' is read as 'all k-mers on or beyond the line t+q = Tlen' (what pals relies on); such a match or its mirror image must be covered; palindromes whose arms overlap in the target (Tlen-2n < T0+Q0 < Tlen) are not demanded",
+			"hits may speak of letter indices or, throughout one hit list, of sequence coordinates (index + Seq.Offset)",
+			"Filters made from one built index may run at the same time on different goroutines, each with its own query and sorter (pals.Share hands one index to several PALS values); the statement itself is silent on this", "a Filter value may be reused for further queries, of any length, after the sorter has been cleared (as pals.Align does) or with a new sorter"},
 	})
 }
 
@@ -204,16 +313,21 @@ func c14Case(r *obs.Run, i int) {
 		p.Offset = maxInt(p.E, 1) + rng.Intn(8)
 	}
 	p.Self = idx%5 == 4
+	p.SelfComplement = idx%15 == 9 // a third of the self comparisons look at the other strand
 	maxLen := r.Pick(1500, 5000)
 	tl := 100 + rng.Intn(maxLen-99)
 	ql := 100 + rng.Intn(maxLen-99)
 	if rng.Intn(4) == 0 {
 		tl = maxInt(p.N+5, 100+rng.Intn(200))
 	}
+	// the region pals.Optimise chooses from (k 9 and more, tens of errors, match lengths of hundreds, offset e+32) ...
+	big := idx%25 == 2
+	// ... and repeats many times longer than n (their k-mers make runs of hundreds in one tube), also for small k
+	long := big || idx%25 == 7 || idx%50 == 14
 	// ring-stress family: errors allowed, small offsets (many recycling ticks), a short target whose length puts
 	// the last diagonal in the top part of its tube, a long query, old matches at the target end and k-mers of
 	// the target start sprinkled through the query: every slot of the circular tube list is reused many times
-	stress := idx%4 == 3 && !p.Self
+	stress := idx%4 == 3 && !p.Self && !long
 	if stress {
 		p.E = 1 + rng.Intn(3)
 		minN = p.K*(p.E+1) + rng.Intn(3)
@@ -223,11 +337,34 @@ func c14Case(r *obs.Run, i int) {
 		tl += ((p.Offset - 1 - rng.Intn(p.E)) - (tl-1)%p.Offset + p.Offset) % p.Offset // (tl-1)%offset in [offset-e, offset-1]
 		ql = minInt(maxLen, tl*(4+rng.Intn(6)))
 	}
+	if big {
+		p.K = 9 + rng.Intn(r.Pick(3, 4))
+		p.E = 4 + rng.Intn(21)
+		minN = p.K*(p.E+1) + rng.Intn(3)
+		p.N = maxInt(minN, 100) + []int{0, 1, 8, 40, 100}[rng.Intn(5)]
+		p.Offset = p.E + 32
+		if rng.Intn(3) == 0 {
+			p.Offset = p.E + rng.Intn(41)
+		}
+		r.Count("pairs_with_word_size_9_or_more_and_4_to_24_errors", 1)
+	}
+	if long {
+		top := minInt(maxLen, 2500)
+		tl = 800 + rng.Intn(top-799)
+		ql = 800 + rng.Intn(top-799)
+	}
+	if p.SelfComplement && !big && rng.Intn(2) == 0 { // no errors: every k-mer of a match is needed
+		p.E = 0
+		p.N = p.K + rng.Intn(3) + []int{0, 0, 1, 3, 8, 20}[rng.Intn(6)]
+	}
 	T := c14Rand(rng, tl)
 	Q := c14Rand(rng, ql)
 	if !p.Self && rng.Intn(3) == 0 {
 		p.Complement = true
 		r.Count("non_self_pairs_with_the_complement_flag", 1)
+	}
+	if p.SelfComplement {
+		p.Complement = true
 	}
 	if stress {
 		r.Count("ring_stress_pairs", 1)
@@ -240,9 +377,31 @@ func c14Case(r *obs.Run, i int) {
 		p.ReuseParams = true
 		r.Count("params_values_reused_after_new", 1)
 	}
-	if p.Self {
+	if idx%20 == 0 { // never a self, stress or long-repeat case
+		p.QueryIsTarget = []string{c14SameValue, c14Clone}[(idx/20)%2]
+		r.Count("pairs_with_the_target_as_query_and_no_self_flag", 1)
+	}
+	if p.Self || p.QueryIsTarget != "" {
 		Q = T
 		ql = tl
+	}
+	if p.MorassChunk > 0 {
+		// every run file of a sorter stays open until the sorter is cleaned up: keep the chunk large enough for the
+		// expected number of hits (common k-mers of two random sequences, half as many again) to fit in 10000 files
+		if est := tl*ql/(1<<uint(2*p.K))*3/2 + 1000; est/p.MorassChunk >= 10000 {
+			p.MorassChunk = est/10000 + 1
+		}
+	}
+	if rng.Intn(4) == 0 { // the sequences do not start at 0
+		p.TargetOffset = c14SeqOffsets[rng.Intn(len(c14SeqOffsets))]
+		p.QueryOffset = append(c14SeqOffsets, 0, p.TargetOffset)[rng.Intn(len(c14SeqOffsets)+2)]
+		if (p.Self && !p.SelfComplement) || p.QueryIsTarget != "" {
+			p.QueryOffset = p.TargetOffset
+		}
+		r.Count("pairs_of_sequences_with_offsets", 1)
+	}
+	if !p.Self && idx%12 == 5 {
+		p.Concurrent = 3 + rng.Intn(3)
 	}
 	if tl < p.N+2 || ql < p.N+2 {
 		return
@@ -253,7 +412,7 @@ func c14Case(r *obs.Run, i int) {
 	type plant struct{ T0, Q0, Mism int }
 	var plants []plant
 	nplant := 2 + rng.Intn(4)
-	for k := 0; k < nplant; k++ {
+	for k := 0; k < nplant && !p.SelfComplement; k++ {
 		var t0, q0 int
 		switch k % 4 {
 		case 0:
@@ -294,6 +453,29 @@ func c14Case(r *obs.Run, i int) {
 		copy(Q[q0:], w)
 		plants = append(plants, plant{t0, q0, mism})
 	}
+	// the other strand of a self comparison: hairpins. The window at t0 is written, reverse complemented and with
+	// <= e substitutions, gap letters to its left (gap 0, 1, 2: the match lies on or next to the line that takes
+	// the place of the main diagonal), at the target end, at the query end (left arm at 0) and anywhere
+	for k := 0; k < nplant+2 && p.SelfComplement; k++ {
+		gap := []int{0, 0, 1, 2, 0}[k%5]
+		if k%5 == 4 {
+			gap = rng.Intn(tl)
+		}
+		if tl < 2*p.N+gap {
+			continue
+		}
+		t0 := p.N + gap + rng.Intn(tl-2*p.N-gap+1)
+		switch k % 3 {
+		case 1:
+			t0 = tl - p.N
+		case 2:
+			t0 = p.N + gap
+		}
+		f0 := t0 - p.N - gap
+		mism := rng.Intn(p.E + 1)
+		copy(T[f0:], c14RevComp(c14Mutate(rng, T[t0:t0+p.N], mism)))
+		plants = append(plants, plant{t0, tl - p.N - f0, mism})
+	}
 	if stress && tl >= p.N+p.K+p.E+2 && ql > 4*p.N {
 		// exact copies of the target end at several places of the query ...
 		for k := 0; k < 3+rng.Intn(4); k++ {
@@ -307,14 +489,40 @@ func c14Case(r *obs.Run, i int) {
 			copy(Q[q0:], T[:p.K+rng.Intn(p.E+1)])
 		}
 	}
+	if long { // one repeat of 270..1000 letters, substitutions spread so that its windows stay epsilon-matches
+		l := 270 + rng.Intn(731)
+		var t0, q0 int
+		switch {
+		case p.Self: // two stretches of the target that do not overlap: a direct repeat, or an inverted one
+			l = minInt(l, tl/2-1)
+			a := rng.Intn(tl - 2*l + 1)
+			b := a + l + rng.Intn(tl-2*l-a+1)
+			if p.SelfComplement {
+				copy(T[a:], c14RevComp(c14Spaced(rng, T[b:b+l], p.N, p.E)))
+				t0, q0 = b, tl-l-a
+			} else {
+				copy(T[b:], c14Spaced(rng, T[a:a+l], p.N, p.E))
+				t0, q0 = a, b
+			}
+		default:
+			l = minInt(l, minInt(tl, ql)-1)
+			t0, q0 = rng.Intn(tl-l+1), rng.Intn(ql-l+1)
+			copy(Q[q0:], c14Spaced(rng, T[t0:t0+l], p.N, p.E))
+		}
+		plants = append(plants, plant{t0, q0, -l})
+		r.Count("repeats_of_270_to_1000_letters_planted", 1)
+	}
+	if p.SelfComplement {
+		Q = c14RevComp(T)
+	}
 	scratch := c11Scratch(r)
 	defer os.RemoveAll(scratch)
 	r.Crumb(fmt.Sprintf("%+v tlen=%d qlen=%d plants=%v T=%s Q=%s", p, tl, ql, plants, T, Q))
 	w := map[string]interface{}{"params": p, "planted": plants, "target": string(T), "query": string(Q)}
-	if p.Self {
+	if p.Self && !p.SelfComplement {
 		delete(w, "query")
 	}
-	var hits []filter.Hit
+	var hits, side []filter.Hit
 	var err error
 	func() {
 		defer func() {
@@ -322,34 +530,72 @@ func c14Case(r *obs.Run, i int) {
 				err = fmt.Errorf("panic: %v", e)
 			}
 		}()
-		var prior []byte
+		var priors, sideQs [][]byte
 		if idx%3 == 1 && p.Self {
-			prior = Q
+			priors = [][]byte{Q}
 			r.Count("self_comparisons_run_twice_on_one_filter", 1)
 		}
 		if idx%3 == 1 && !p.Self {
 			// a previous query of the same length sharing material with this one, so that tubes are left partly filled
-			prior = append([]byte(nil), Q...)
+			prior := append([]byte(nil), Q...)
 			for k := 0; k < len(prior)/8+1; k++ {
 				prior[rng.Intn(len(prior))] = "ACGT"[rng.Intn(4)]
 			}
 			copy(prior[rng.Intn(len(prior)/2+1):], c14Rand(rng, len(prior)/3))
+			priors = [][]byte{prior}
 			r.Count("filter_reused_for_second_query", 1)
+			if rng.Intn(2) == 0 { // and before that a query several times longer than the target and a short one, in either order
+				priors = [][]byte{c14Scramble(rng, T, Q, minInt(tl*(2+rng.Intn(3)), 2*maxLen)), c14Scramble(rng, T, Q, p.N+2+rng.Intn(ql/2)), prior}
+				if rng.Intn(2) == 0 { // the short one first
+					priors[0], priors[1] = priors[1], priors[0]
+				}
+			}
 		}
-		hits, err = c14Filter(T, Q, p, scratch, prior)
+		if len(priors) > 0 && (rng.Intn(2) == 0 || len(priors) == 3) {
+			p.FreshSorters = true
+			w["params"] = p
+			r.Count("filters_used_again_with_a_new_sorter_each_time", 1)
+		}
+		if len(priors) == 3 {
+			r.Count("filters_used_for_a_fourth_query_after_a_long_and_a_short_one", 1)
+		}
+		for k := 0; k < p.Concurrent; k++ {
+			sideQs = append(sideQs, Q)
+			if k > 0 {
+				sideQs[k] = c14Scramble(rng, T, Q, maxInt(p.N+2, ql/2+rng.Intn(ql)))
+			}
+		}
+		hits, side, err = c14Filter(T, Q, p, scratch, priors, sideQs)
 	}()
 	if err != nil {
 		r.Violate("filter-error", fmt.Sprintf("params %+v tlen=%d qlen=%d: %v", p, tl, ql, err), w)
 		return
 	}
-	ms := c14Matches(T, Q, p.N, p.E, p.Self)
+	ms := c14Matches(T, Q, p.N, p.E, p.Self && !p.SelfComplement)
+	if p.SelfComplement {
+		// Only the matches whose k-mers all lie on or beyond the line t+q = Tlen are demanded: in the target these are
+		// an inverted repeat whose arms do not overlap, seen from its right arm. Its mirror image (seen from the
+		// left arm) lies wholly on the other side; an answer that reports that one instead is accepted as well.
+		kept := ms[:0]
+		for _, m := range ms {
+			if m.T0+m.Q0 >= tl {
+				kept = append(kept, m)
+				r.Count("hairpin_matches_with_arms_0_to_2_letters_apart", int64(boolInt(m.T0+m.Q0 <= tl+2)))
+			}
+		}
+		ms = kept
+		r.Count("self_comparisons_with_the_reverse_complement", 1)
+		r.Count("matches_checked_on_the_other_strand_of_a_self_comparison", int64(len(ms)))
+	}
 	r.Count("pairs", 1)
 	if p.Self {
 		r.Count("self_comparison_pairs", 1)
 	}
 	r.Count("hits_reported", int64(len(hits)))
 	r.Count("epsilon_matches_checked", int64(len(ms)))
-	missed := 0
+	if p.K >= 9 {
+		r.Count("epsilon_matches_checked_with_word_size_9_or_more", int64(len(ms)))
+	}
 	for _, m := range ms {
 		if m.T0+p.N == tl {
 			r.Count("matches_at_target_end", 1)
@@ -360,18 +606,35 @@ func c14Case(r *obs.Run, i int) {
 		if m.Mism > 0 {
 			r.Count("matches_with_errors", 1)
 		}
-		if !c14Covered(m, hits, p) {
-			missed++
-			if missed == 1 {
-				w["hits"] = hits
-				w["missed_match"] = m
-				r.Violate("epsilon-match-missed", fmt.Sprintf("params %+v tlen=%d qlen=%d: windows t[%d,%d) q[%d,%d) differ by %d <= %d substitutions (diagonal q-t=%d) but no hit covers them (%d hits)",
-					p, tl, ql, m.T0, m.T0+p.N, m.Q0, m.Q0+p.N, m.Mism, p.E, m.Q0-m.T0, len(hits)), w)
-			}
+		if p.QueryIsTarget != "" && m.Q0 <= m.T0 {
+			r.Count("matches_on_or_below_the_main_diagonal_demanded_without_self_flag", 1)
+		}
+		if p.TargetOffset != 0 || p.QueryOffset != 0 {
+			r.Count("matches_checked_in_sequences_with_offsets", 1)
 		}
 	}
-	if missed > 0 {
-		r.Count("epsilon_matches_missed", int64(missed))
+	judge := func(hits []filter.Hit, who string) {
+		missed := c14Missed(ms, hits, p, tl, 0, 0, p.SelfComplement)
+		if len(missed) > 0 && (p.TargetOffset != 0 || p.QueryOffset != 0) &&
+			len(c14Missed(ms, hits, p, tl, p.TargetOffset, p.QueryOffset, p.SelfComplement)) == 0 {
+			// the hits make sense as sequence coordinates (letter index + offset) throughout: the statement does not say which
+			r.Count("hit_lists_accepted_as_sequence_coordinates", 1)
+			missed = nil
+		}
+		if len(missed) == 0 {
+			return
+		}
+		m := missed[0]
+		w["hits"] = hits
+		w["missed_match"] = m
+		r.Violate("epsilon-match-missed", fmt.Sprintf("params %+v tlen=%d qlen=%d: windows t[%d,%d) q[%d,%d) differ by %d <= %d substitutions (diagonal q-t=%d) but no hit%s covers them (%d hits)",
+			p, tl, ql, m.T0, m.T0+p.N, m.Q0, m.Q0+p.N, m.Mism, p.E, m.Q0-m.T0, who, len(hits)), w)
+		r.Count("epsilon_matches_missed", int64(len(missed)))
+	}
+	judge(hits, "")
+	if p.Concurrent > 0 {
+		r.Count("pairs_filtered_while_3_to_5_other_filters_ran_on_the_index", 1)
+		judge(side, " of the filter that ran next to it on the same query")
 	}
 	r.Note(fmt.Sprintf("%+v/%d/%d/%x", p, rho, tau, hashBytes(append(append([]byte(nil), T...), Q...))), len(ms) > 0)
 	r.Count("diagonal_residues_covered", int64(boolInt(len(ms) > 0 && idx < 41)))
